@@ -70,6 +70,7 @@ fn alphabet() -> Vec<Prog> {
         p("observe-module-funcs", &obs_funcs),
         p("observe-global-funcs", "a{b:percentage(.5);c:nth(1 2 3,2);d:str-length(\"ab\");e:map-get((k:1),k);f:red(#123);g:type-of(null);h:if(true,1,2);i:function-exists(\"percentage\");j:global-variable-exists(\"pi\")}"),
         p("assign-builtin-var", "@use \"sass:math\";math.$pi: 3;a{b:math.$pi}"),
+        p("assign-builtin-var-aliased", "@use \"sass:math\" as m;m.$pi: 3;m.$e: 2 !default;a{b:m.$pi m.$e}"),
         p("configure-builtin", "@use \"sass:math\" with ($pi: 3);a{b:math.$pi}"),
         p("forward-configure-builtin", "@forward \"sass:math\" with ($pi: 3);a{b:1}"),
         p("load-css-builtin-with", "@use \"sass:meta\";a{@include meta.load-css(\"sass:math\", $with: (pi: 3))}"),
@@ -87,6 +88,13 @@ fn alphabet() -> Vec<Prog> {
         src: obs_funcs.clone(),
         compressed: true,
         precision: 3,
+    });
+    v.push(Prog {
+        name: "assign-builtin-var-through-forwarding-module".into(),
+        files: vec![("fwd.scss".to_string(), "@forward \"sass:math\";".to_string())],
+        src: "@use \"fwd\";fwd.$pi: 3;a{b:fwd.$pi}".into(),
+        compressed: false,
+        precision: 10,
     });
     v.push(Prog {
         name: "user-module-configured".into(),
@@ -137,6 +145,7 @@ fn sched_alphabet(alpha: &[Prog]) -> Vec<usize> {
         "observe-vars",
         "observe-module-funcs",
         "assign-builtin-var",
+        "assign-builtin-var-aliased",
         "configure-builtin",
         "star-import-then-global-assign",
         "redefine-percentage",
@@ -592,7 +601,7 @@ fn main() {
         let t1 = Instant::now();
         let mut totc = SchedTotals { schedules: 0, configs: 0, max_points: 0, skipped: 0, late: 0, completed_min: 0, cap_hit: false, samples: vec![], lens: BTreeSet::new() };
         let cold_bound = 1;
-        let cold_cap = ck.tier.pick(100u64, 5_000);
+        let cold_cap = ck.tier.pick(400u64, 20_000);
         let cold_alpha: Vec<usize> = sa.iter().copied().take(ck.tier.pick(2, sa.len())).collect();
         'o3: for a in &cold_alpha {
             for b in &cold_alpha {
